@@ -39,6 +39,9 @@ func main() { vh.Main(map[string]vh.Suite{"C33": {Corr: "Corr.C33Corr", Run: run
 // within what RFC 8878 asks every decoder to support (8 MiB). Anything above 12 MiB is beyond the protocol's limits.
 const allocLimit = 12 << 20
 
+// gridDeadline: connection deadline of the mutation-grid runs (many mutations make both sides wait for each other until it expires)
+const gridDeadline = 1200 * time.Millisecond
+
 type driveOpts struct {
 	id        tls.ClientHelloID
 	spec      *tls.ClientHelloSpec
@@ -307,6 +310,9 @@ func hexScript(msgs [][]byte) []string {
 var typeNames = map[uint8]string{2: "ServerHello", 8: "EncryptedExtensions", 11: "Certificate", 12: "ServerKeyExchange", 13: "CertificateRequest",
 	14: "ServerHelloDone", 15: "CertificateVerify", 20: "Finished", 22: "CertificateStatus", 25: "CompressedCertificate", 4: "NewSessionTicket", 24: "KeyUpdate"}
 
+var maxAlloc uint64
+var maxElapsed time.Duration
+
 // judge applies the property's oracle to one run.
 func judge(c *vh.Ctx, r *driveResult, mutation, message string, input any) {
 	c.Count("runs/" + message)
@@ -318,6 +324,16 @@ func judge(c *vh.Ctx, r *driveResult, mutation, message string, input any) {
 		c.Count("harness-server-panic") // the scripted server is test equipment
 	}
 	key := mutation + "/" + message
+	if !r.hung && !r.panicked && r.alloc > maxAlloc {
+		maxAlloc = r.alloc
+		c.Extra["max_alloc_bytes"] = r.alloc
+		c.Extra["max_alloc_case"] = key
+	}
+	if r.elapsed > maxElapsed {
+		maxElapsed = r.elapsed
+		c.Extra["max_elapsed_ms"] = r.elapsed.Milliseconds()
+		c.Extra["max_elapsed_case"] = key
+	}
 	outcome := map[string]any{"handshake_err": fmt.Sprint(r.hsErr), "read_err": fmt.Sprint(r.readErr), "elapsed_ms": r.elapsed.Milliseconds(), "alloc_bytes": r.alloc}
 	switch {
 	case r.panicked:
@@ -352,6 +368,9 @@ type scenario struct {
 
 type parrotInfo struct {
 	hs.Parrot
+	spec     func() *tls.ClientHelloSpec // non-nil: HelloCustom with this spec
+	certBody []byte                      // body of the honest TLS 1.3 Certificate message this client is sent
+	ccert    map[uint16][]byte           // that body compressed ahead of time (the encoders' own memory stays out of the measurement)
 	tls13    bool
 	ccAlgs   []uint16
 	alpn     []string
@@ -380,6 +399,11 @@ func scenarios() []scenario {
 				return false
 			}
 			s.CertCompression = p.ccAlgs[0]
+			if z, ok := p.ccert[s.CertCompression]; ok {
+				s.CompressedCert = z
+				n := uint32(len(p.certBody))
+				s.CompressedCertULen = &n
+			}
 			return p.usable13
 		}},
 		{"tls13-alps", []uint8{8}, func(scfg *tls.Config, s *tls.VerifServerScript, p *parrotInfo) bool {
@@ -404,12 +428,34 @@ func probeParrots(c *vh.Ctx, pki *hs.PKI) []*parrotInfo {
 	all := hs.Parrots()
 	all = append(all, hs.Parrot{Name: "Golang", ID: tls.HelloGolang})
 	all = append(all, hs.RandomizedParrots(3, c.Seed)...)
+	// no predefined parrot advertises zstd (one advertises zlib): Chrome_120's spec with all three algorithms
+	zstdSpec := func() *tls.ClientHelloSpec {
+		sp, _ := tls.UTLSIdToSpec(tls.HelloChrome_120)
+		for _, e := range sp.Extensions {
+			if cc, ok := e.(*tls.UtlsCompressCertExtension); ok {
+				cc.Algorithms = []tls.CertCompressionAlgo{tls.CertCompressionZstd, tls.CertCompressionBrotli, tls.CertCompressionZlib}
+			}
+		}
+		return &sp
+	}
+	all = append(all, hs.Parrot{Name: "Custom_Chrome_120_zstd", ID: tls.HelloCustom})
 	for _, p := range all {
 		ccfg := pki.ClientConfig()
 		if p.ID == tls.HelloGolang {
 			ccfg.NextProtos = []string{"h2", "http/1.1"}
 		}
-		r := hs.Run(hs.Opts{ID: p.ID, ClientCfg: ccfg, ServerCfg: pki.ServerConfig("h2", "http/1.1"), NoAppData: true})
+		var spec *tls.ClientHelloSpec
+		if p.ID == tls.HelloCustom {
+			spec = zstdSpec()
+		}
+		var certMsg []byte
+		capture := &tls.VerifServerScript{MutateHandshakeMsg: func(typ uint8, b []byte) []byte {
+			if typ == 11 && certMsg == nil {
+				certMsg = append([]byte(nil), b...)
+			}
+			return b
+		}}
+		r := hs.Run(hs.Opts{ID: p.ID, Spec: spec, ClientCfg: ccfg, ServerCfg: pki.ServerConfig("h2", "http/1.1"), Script: capture, NoAppData: true})
 		if r.BuildErr != nil || r.Wire == nil {
 			c.Count("parrot-build-error/" + p.Name)
 			continue
@@ -417,13 +463,33 @@ func probeParrots(c *vh.Ctx, pki *hs.PKI) []*parrotInfo {
 		pi := &parrotInfo{Parrot: p, ccAlgs: r.Wire.CertCompressionAlgs, alpn: r.Wire.ALPN, groups: r.Wire.SupportedGroups, shares: r.Wire.KeyShareGroups}
 		pi.tls13 = hs.ContainsU16(r.Wire.SupportedVersions, tls.VersionTLS13)
 		pi.usable13 = r.Completed() && r.ClientState.Version == tls.VersionTLS13
+		if pi.usable13 && len(certMsg) > 4 {
+			pi.certBody = certMsg[4:]
+			pi.ccert = map[uint16][]byte{}
+			for _, a := range pi.ccAlgs {
+				if z, err := tls.VerifCompress(a, pi.certBody); err == nil {
+					pi.ccert[a] = z
+				}
+			}
+		}
 		scfg := pki.ServerConfig("h2", "http/1.1")
 		scfg.MaxVersion = tls.VersionTLS12
-		r2 := hs.Run(hs.Opts{ID: p.ID, ClientCfg: ccfg, ServerCfg: scfg, NoAppData: true})
+		if p.ID == tls.HelloCustom {
+			spec = zstdSpec()
+			pi.spec = zstdSpec
+		}
+		r2 := hs.Run(hs.Opts{ID: p.ID, Spec: spec, ClientCfg: ccfg, ServerCfg: scfg, NoAppData: true})
 		pi.usable12 = r2.Completed()
 		out = append(out, pi)
 	}
 	return out
+}
+
+func specOf(p *parrotInfo) *tls.ClientHelloSpec {
+	if p.spec != nil {
+		return p.spec()
+	}
+	return nil
 }
 
 func clientCfg(pki *hs.PKI, p *parrotInfo) *tls.Config {
@@ -479,7 +545,7 @@ func run(c *vh.Ctx) {
 			}
 			m := &mutator{kind: kind, target: target, occ: occ, rng: rand.New(rand.NewSource(c.Rng.Int63()))}
 			script.MutateHandshakeMsg = m.fn
-			r := drive(driveOpts{id: p.ID, ccfg: clientCfg(pki, p), scfg: scfg, script: script})
+			r := drive(driveOpts{id: p.ID, spec: specOf(p), ccfg: clientCfg(pki, p), scfg: scfg, script: script, deadline: gridDeadline})
 			live++
 			if !m.hit {
 				c.Count("mutation-not-reached/" + sc.name + "/" + msgName)
@@ -554,7 +620,7 @@ func postCases(c *vh.Ctx, pki *hs.PKI, parrots []*parrotInfo, live *int) {
 			if name == "NewSessionTicket" && k%2 == 1 {
 				count = 300 // ticket flood
 			}
-			r := drive(driveOpts{id: p.ID, ccfg: clientCfg(pki, p), scfg: pki.ServerConfig("h2", "http/1.1"), script: &tls.VerifServerScript{},
+			r := drive(driveOpts{id: p.ID, spec: specOf(p), ccfg: clientCfg(pki, p), scfg: pki.ServerConfig("h2", "http/1.1"), script: &tls.VerifServerScript{},
 				post: func(sc *tls.Conn) {
 					for i := 0; i < count; i++ {
 						if err := sc.VerifC34WriteHandshakeRecord(msg); err != nil {
@@ -651,7 +717,7 @@ func targeted(c *vh.Ctx, pki *hs.PKI, parrots []*parrotInfo, live *int) {
 				s.CertCompression = t.alg
 			}
 			t.setup(s)
-			r := drive(driveOpts{id: p.ID, ccfg: clientCfg(pki, p), scfg: pki.ServerConfig("h2"), script: s})
+			r := drive(driveOpts{id: p.ID, spec: specOf(p), ccfg: clientCfg(pki, p), scfg: pki.ServerConfig("h2"), script: s})
 			*live++
 			judge(c, r, t.mutation, t.message, map[string]any{"parrot": p.Name, "scenario": "targeted", "algorithm": s.CertCompression,
 				"declared_uncompressed_length": *s.CompressedCertULen, "compressed_payload": hexScript([][]byte{s.CompressedCert}), "seed": c.Seed})
@@ -707,11 +773,11 @@ func targeted(c *vh.Ctx, pki *hs.PKI, parrots []*parrotInfo, live *int) {
 		}
 		n++
 		s := &tls.VerifServerScript{ForceHRR: true, HRRCookie: bytes.Repeat([]byte{0xab}, 65000)}
-		r := drive(driveOpts{id: p.ID, ccfg: clientCfg(pki, p), scfg: pki.ServerConfig("h2"), script: s})
+		r := drive(driveOpts{id: p.ID, spec: specOf(p), ccfg: clientCfg(pki, p), scfg: pki.ServerConfig("h2"), script: s})
 		*live++
 		judge(c, r, "cookie-65000-bytes", "HelloRetryRequest", map[string]any{"parrot": p.Name, "scenario": "targeted", "cookie_len": 65000})
 		s2 := &tls.VerifServerScript{ALPSCodepoint: 17613, ALPSData: bytes.Repeat([]byte{7}, 60000), ReadClientEE: true}
-		r = drive(driveOpts{id: p.ID, ccfg: clientCfg(pki, p), scfg: pki.ServerConfig("h2"), script: s2})
+		r = drive(driveOpts{id: p.ID, spec: specOf(p), ccfg: clientCfg(pki, p), scfg: pki.ServerConfig("h2"), script: s2})
 		*live++
 		judge(c, r, "alps-60000-bytes", "EncryptedExtensions", map[string]any{"parrot": p.Name, "scenario": "targeted"})
 	}
@@ -724,7 +790,7 @@ func targeted(c *vh.Ctx, pki *hs.PKI, parrots []*parrotInfo, live *int) {
 		ccfg := clientCfg(pki, p)
 		scfg := pki.ServerConfig("h2")
 		scfg.SessionTicketsDisabled = false
-		r1 := drive(driveOpts{id: p.ID, ccfg: ccfg, scfg: scfg, script: &tls.VerifServerScript{}, post: func(sc *tls.Conn) { sc.Write([]byte("x")) }})
+		r1 := drive(driveOpts{id: p.ID, spec: specOf(p), ccfg: ccfg, scfg: scfg, script: &tls.VerifServerScript{}, post: func(sc *tls.Conn) { sc.Write([]byte("x")) }})
 		*live++
 		judge(c, r1, "none", "resumption-first", map[string]any{"parrot": p.Name})
 		for _, hrr := range []bool{false, true} {
@@ -732,7 +798,7 @@ func targeted(c *vh.Ctx, pki *hs.PKI, parrots []*parrotInfo, live *int) {
 			if hrr {
 				s.HRRCookie = []byte("again")
 			}
-			r2 := drive(driveOpts{id: p.ID, ccfg: ccfg, scfg: scfg, script: s, post: func(sc *tls.Conn) { sc.Write([]byte("x")) }})
+			r2 := drive(driveOpts{id: p.ID, spec: specOf(p), ccfg: ccfg, scfg: scfg, script: s, post: func(sc *tls.Conn) { sc.Write([]byte("x")) }})
 			*live++
 			judge(c, r2, fmt.Sprintf("hrr-%v", hrr), "resumption-second", map[string]any{"parrot": p.Name, "hrr": hrr})
 		}
@@ -801,9 +867,9 @@ func rawStreams(c *vh.Ctx, pki *hs.PKI, parrots []*parrotInfo, live *int) {
 				data := kd.gen()
 				dl := 3 * time.Second
 				if kd.stall {
-					dl = 600 * time.Millisecond
+					dl = 400 * time.Millisecond
 				}
-				r := drive(driveOpts{id: p.ID, ccfg: clientCfg(pki, p), deadline: dl, rawServer: func(conn net.Conn) {
+				r := drive(driveOpts{id: p.ID, spec: specOf(p), ccfg: clientCfg(pki, p), deadline: dl, rawServer: func(conn net.Conn) {
 					buf := make([]byte, 1<<16)
 					conn.Read(buf) // the ClientHello (or part of it)
 					conn.Write(data)
